@@ -473,6 +473,12 @@ def c16(tier):
     for module, cfg in scen:
         for mode in modes:
             model_replay_cached("C16", tier, ev, rep, module, cfg, mode, cache)
+    # a minimal user-defined point type (point + point, scalar * point only): evaluation, insertion, elevation, splitting
+    for module, cfg in scen[:5]:
+        if "basis" in cfg:
+            continue
+        model_replay_cached("C16", tier, ev, rep, module, cfg, "minimal-point", cache,
+                            filt=lambda t: not t["pre"].get("a", {}).get("W"))
     # operations whose result the spec does not pin down (forced removal / reduction, lossy fitting): the SAME
     # TLC-generated call is executed with Fraction data and with float data and the two results are compared
     for module, cfg in [("MC_Curve.tla", "MC_Curve_remove_quick.cfg"), ("MC_Curve.tla", "MC_Curve_decrease_quick.cfg"),
@@ -529,7 +535,7 @@ def cross_mode(ev, rep, module, cfg, cache, limit=None):
     ev.extra["cross_mode_compared"] = ev.extra.get("cross_mode_compared", 0) + n
 
 
-def model_replay_cached(prop, tier, ev, rep, module, cfg, mode, cache):
+def model_replay_cached(prop, tier, ev, rep, module, cfg, mode, cache, filt=None):
     """like model_replay but one TLC run serves several number modes; Binding B is skipped in inexact modes"""
     key = (module, cfg)
     if key not in cache:
@@ -549,6 +555,8 @@ def model_replay_cached(prop, tier, ev, rep, module, cfg, mode, cache):
     # relationally specified results are judged in Fraction mode by the property's own check; here they are
     # executed only in the exact modes, to see that exact data still give exact numbers
     recs = [t for t in res.records if t["ret"].get("rel") != "sem" or r.mode.exact]
+    if filt is not None:
+        recs = [t for t in recs if filt(t)]
     n = replay_all(recs, r, on_fail, sample=lambda t: ev.sample({"mode": mode, **short(t)}), path_records=res.records)
     ev.validated += n
     per = ev.extra.setdefault("replayed_by_mode", {})
